@@ -28,7 +28,7 @@ from collections import Counter
 VERIF = os.path.dirname(os.path.dirname(os.path.abspath(__file__)))
 REPO = os.path.realpath(os.environ.get("VERIF_REPO") or "/repo")
 REPLAYS = os.path.join(VERIF, "replays")
-EVIDENCE = os.path.join(VERIF, "evidence")
+EVIDENCE = os.environ.get("VERIF_EVIDENCE_DIR") or os.path.join(VERIF, "evidence")
 KNOWN_FINDINGS = os.path.join(VERIF, "known_findings.txt")
 
 MAX_VIOLATIONS = 20
